@@ -14,6 +14,19 @@ TRIAGE = {
     "61fb99dbdc": "equivalent: `Temporal.decodeOne` hands every token to `Base.decodeOne` first, which applies the same well-formedness test and returns the invalid-vector error before the weakened test is reached",
     "fa832517aa": "equivalent for the library's functions: the table entry of Not Defined is only tested for presence (`IsValid`); `Value()` takes the base metric's weight for Not Defined before the table is read",
     "6c734c3fbb": "equivalent: `strconv.FormatFloat` treats every negative precision as 'shortest representation'",
+    "2828dc99b4": "outside the properties: weight returned for an *invalid* v3 Report Confidence (Score() answers 0 before using it)",
+    "1ca073b305": "outside the properties: weight returned for an *invalid* v2 Exploitability",
+    "1f298956e1": "outside the properties: weight returned for an *invalid* v2 Confidentiality Requirement",
+    "7937d0c3c3": "outside the properties: weight returned for an *invalid* v2 Target Distribution",
+    "4179489091": "outside the properties: weight returned for an *invalid* Modified Integrity value",
+    "13fc6838d9": "equivalent: `strconv.FormatFloat` treats every negative precision as 'shortest representation'",
+    "cff00d0de7": "equivalent: `strconv.FormatFloat` treats every negative precision as 'shortest representation'",
+    "acd4227e4f": "outside the properties: unused `IsDefined()` of v2 Remediation Level (MODEL-DRIFT only)",
+    "cb1acf5eaa": "outside the properties: unused `IsDefined()` of v2 Remediation Level (MODEL-DRIFT only)",
+    "a07120fd6f": "equivalent for the library's functions: the table entry of Not Defined is only tested for presence",
+    "e7f5a5197b": "equivalent: `Environmental.decodeOne` hands every token to `Temporal.decodeOne` / `Base.decodeOne` first, which apply the same well-formedness test",
+    "a693dbb5af": "inside the properties: an unsupported metric is now reported at once and every other token error is deferred to the end of the loop; acceptance is unchanged and the reported sentinel still names a defect the vector has (C11 asks for that, not for a particular choice among several) -- the same latitude as `L1` of 11.9",
+    "a1f611e1b8": "inside the properties: as the line above, for the v2 Environmental decoder",
     "4a5eb510a3": "not a violation: capping AdjustedImpact at 9.99 instead of 10 changes 405 of the 46,656 adjusted base scores, and every one of them changes from the KF-1 value to the value of the exact equation (checked independently with rationals); C05 correctly reports fewer KNOWN-FINDING observations and no violation",
 }
 
